@@ -7,6 +7,8 @@ import CookModel.Lemmas.RoundtripComp
 import CookModel.Lemmas.RoundtripStep
 import CookModel.Lemmas.RoundtripTimer
 import CookModel.Lemmas.RoundtripShort
+import CookModel.Lemmas.RoundtripStepX
+import CookModel.Lemmas.RoundtripBlock
 /-
   C01  Printing a recipe as Cooklang and parsing it returns that recipe.
 
@@ -517,5 +519,91 @@ example : (match (ingredientP (α := Rat) ⟨C01_saltAnd, 0, ⟨0⟩, toyCharSpe
     | _ => false) = true := by decide
 /-- a name with a blank or a non-word token is not a single word -/
 example : ({ name := [tk .word ['a'], tk .ws [' '], tk .word ['b']] } : AComp).wfShort toyCharSpec ⟨0⟩ = false := by decide
+
+/-! ### the step layer with every component form -/
+
+/-- Step composition over all segment families (`SegX`): text runs, ingredients and cookware in
+    braces form and in single-word form, timers.  Under `segsXOK` (each segment satisfies the
+    side conditions of its layer; two text runs do not touch; what follows a component is as its
+    layer requires: `restOK`, `noParenNext`, `shortRestOK`) `parse_step` emits `start step`, exactly
+    one event per segment in order (`SegsXEvs`: the text of a run is its visible characters, a
+    component event matches the intended component) and `stop step`, and NOTHING else — no error,
+    no warning, no panic — with the cursor at the end of the block.  This discharges the `partial`
+    of `C01_step_compose_partial` for timers and single-word components.
+    Partial: components carrying an intermediate reference `&(…)` are not among the segments. -/
+theorem C01_step_compose_all_forms_partial {α : Type} [Arith α] (segs : List SegX) (s : BP α) (ts : List Tok)
+    (hs : Spells ts (segs.flatMap SegX.spell)) (ht : s.toks = ts) (hc : s.cur = 0)
+    (hrun : RunAt (baseOff ts) ts) (hok : segsXOK s.cs s.ext segs = true) :
+    ∃ (evs : List (Ev α)) (arr : Array (Ev α)),
+      parseStep s = ((), { s with cur := ts.length, evs := arr }) ∧
+      arr.toList = s.evs.toList ++ [.start .step] ++ evs ++ [.stop .step] ∧ SegsXEvs s.cs segs evs :=
+  rt_parseStepX segs s ts hs ht hc hrun hok
+
+/-- example: `Boil @water{= 1 1 / 2 % fl oz } with @salt, ~soft boil {…} in #pot.` -/
+def C01_exStepX : List SegX :=
+  [.text [tk .word "Boil".toList, tk .ws [' ']],
+   .ingredient { name := [tk .word "water".toList], qty := some C01_exQty } C01_exCPad,
+   .text [tk .ws [' '], tk .word "with".toList, tk .ws [' ']],
+   .ingredient1 C01_exSalt,
+   .text [tk .punct [','], tk .ws [' ']],
+   .timer C01_exTimer C01_exCPad,
+   .text [tk .ws [' '], tk .word "in".toList, tk .ws [' ']],
+   .cookware1 { name := [tk .word "pot".toList] },
+   .text [tk .dot ['.']]]
+example : segsXOK toyCharSpec C01_timerExt C01_exStepX = true := by decide
+/-- a single-word component followed (anywhere before the next marker) by `{` is rejected -/
+example : segsXOK toyCharSpec C01_allExt [.ingredient1 C01_exSalt,
+    .text [tk .ws [' '], tk .openBrace ['{'], tk .closeBrace ['}']]] = false := by decide
+
+/-! ### the block layer: one block through `parse_block` -/
+
+/-- A step block.  The tokens of one block (as the splitter hands them to `BlockParser::new`)
+    that spell a segment list as above, do not start with `>>`, `=` or `>` and are not all blank
+    (`stepBlockOK`), are parsed by `parse_block` + `finish` (`runBlock`), under either metadata
+    style, to `start step`, one event per segment, `stop step` appended to the event queue;
+    nothing else is emitted, the panic flag is untouched (in particular the `finish` assertion
+    "Block tokens not parsed" holds). -/
+theorem C01_block_step {α : Type} [Arith α] (segs : List SegX) (cs : CharSpec) (ext : Ext) (oldStyle : Bool)
+    (ts : List Tok) (evs0 : Array (Ev α)) (panic : Option String)
+    (hs : Spells ts (segs.flatMap SegX.spell)) (hrun : RunAt (baseOff ts) ts)
+    (hok : segsXOK cs ext segs = true) (hb : stepBlockOK ts = true) :
+    ∃ (evs : List (Ev α)) (arr : Array (Ev α)),
+      runBlock cs ext oldStyle ts evs0 panic = (arr, panic) ∧
+      arr.toList = evs0.toList ++ [.start .step] ++ evs ++ [.stop .step] ∧ SegsXEvs cs segs evs :=
+  rtb_runBlock_step segs cs ext oldStyle ts evs0 panic hs hrun hok hb
+
+/-- A section line `== name ==`: one or more `=`, blanks, the name (a leaf without `=`; or no name),
+    blanks, any number of closing `=`, blanks (`spellSection`, `sectionOK`) is parsed by
+    `parse_block` to exactly one event `section name'` where `name'` trims to the intended name
+    (`none` for an unnamed section); no warning, no panic. -/
+theorem C01_block_section {α : Type} [Arith α] (name : Option (List Tok)) (p : SPad) (cs : CharSpec) (ext : Ext)
+    (oldStyle : Bool) (ts : List Tok) (evs0 : Array (Ev α)) (panic : Option String)
+    (hok : sectionOK cs name p = true) (hs : Spells ts (spellSection name p)) (hrun : RunAt (baseOff ts) ts) :
+    ∃ ev : Ev α, runBlock cs ext oldStyle ts evs0 panic = (evs0.push ev, panic) ∧ SectionMatches cs name ev :=
+  rtb_runBlock_section name p cs ext oldStyle ts evs0 panic hok hs hrun
+
+/-- A metadata line `>> key : value` (key a leaf without `:`, value any leaf, blanks around
+    both; `spellMeta`, `metaOK`) in a recipe without front matter (`old_style_metadata = true`) is
+    parsed by `parse_block` to exactly one event `metadata key' value'` whose texts trim to the
+    intended key and value; no error (empty key), no warning (empty value / invalid entry), no
+    panic.  (With front matter `>>` lines are steps, by design of the parser.) -/
+theorem C01_block_metadata {α : Type} [Arith α] (key value : List Tok) (p : MPad) (cs : CharSpec) (ext : Ext)
+    (ts : List Tok) (evs0 : Array (Ev α)) (panic : Option String) (hok : metaOK cs key value p = true)
+    (hs : Spells ts (spellMeta key value p)) (hrun : RunAt (baseOff ts) ts) :
+    ∃ ev : Ev α, runBlock cs ext true ts evs0 panic = (evs0.push ev, panic) ∧ MetaMatches cs key value ev :=
+  rtb_runBlock_meta key value p cs ext ts evs0 panic hok hs hrun
+
+/-! examples: `== Main course ==`, `=====`, `>> prep time: 1 h 30 min`; a section name with `=`, a key
+    with `:` are rejected -/
+def C01_exSPad : SPad := { n0 := 1, n1 := 2, a := [tk .ws [' ']], b := [tk .ws [' ']], c := [tk .ws [' ']] }
+example : sectionOK toyCharSpec (some [tk .word "Main".toList, tk .ws [' '], tk .word "course".toList]) C01_exSPad = true := by
+  decide
+example : sectionOK toyCharSpec none { n0 := 4 } = true ∧ sectionOK toyCharSpec none { n0 := 1, n1 := 2 } = false := by decide
+example : sectionOK toyCharSpec (some [tk .word ['a'], tk .eq ['='], tk .word ['b']]) {} = false := by decide
+example : metaOK toyCharSpec [tk .word "prep".toList, tk .ws [' '], tk .word "time".toList]
+    [tk .int ['1'], tk .ws [' '], tk .word ['h'], tk .ws [' '], tk .int ['3', '0'], tk .ws [' '], tk .word "min".toList]
+    { a := [tk .ws [' ']], c := [tk .ws [' ']] } = true := by decide
+example : metaOK toyCharSpec [tk .word ['a'], tk .colon [':'], tk .word ['b']] [tk .word ['v']] {} = false := by decide
+example : stepBlockOK (C01_exStepX.flatMap SegX.spell) = true := by decide
 
 end Cook
